@@ -29,6 +29,7 @@ func c01Specs(tier string) []spaceSpec {
 			{sp: &gram.Space{Name: "full-2nt", Alpha: gram.Full, NNT: 2, Min: 2, Max: 6}, maxLen: 3, alpha: ab},
 			{sp: &gram.Space{Name: "core-2nt", Alpha: gram.Core, NNT: 2, Min: 7, Max: 7}, maxLen: 3, alpha: ab},
 			{sp: &gram.Space{Name: "rep-1nt", Alpha: gram.Rep, NNT: 1, Min: 5, Max: 7}, maxLen: 4, alpha: ab},
+			templateSpec("ab", 3, 2, 3),
 			{sp: &gram.Space{Name: "core-2nt-mutual", Alpha: gram.Core, NNT: 2, Min: 8, Max: 8}, maxLen: 3, alpha: ab, mutualOnly: true},
 			{sp: &gram.Space{Name: "core1-2nt-mutual", Alpha: gram.Core1, NNT: 2, Min: 2, Max: 9}, maxLen: 3, alpha: []byte{'a'}, mutualOnly: true},
 		}
@@ -39,6 +40,7 @@ func c01Specs(tier string) []spaceSpec {
 		{sp: &gram.Space{Name: "full-2nt", Alpha: gram.Full, NNT: 2, Min: 2, Max: 4}, maxLen: 4, alpha: ab},
 		{sp: &gram.Space{Name: "core1-2nt-mutual", Alpha: gram.Core1, NNT: 2, Min: 2, Max: 7}, maxLen: 2, alpha: []byte{'a'}, mutualOnly: true},
 		{sp: &gram.Space{Name: "rep-1nt", Alpha: gram.Rep, NNT: 1, Min: 5, Max: 6}, maxLen: 3, alpha: ab},
+		templateSpec("ab", 3, 1, 2),
 		{sp: &gram.Space{Name: "core1-2nt-mutual-finite", Alpha: gram.Core1, NNT: 2, Min: 8, Max: 8}, maxLen: 2, alpha: []byte{'a'}, mutualOnly: true, finiteOnShort: true},
 	}
 }
